@@ -257,8 +257,31 @@ fn attr_body(ch: &mut Chooser, depth: usize, out: &mut String, max_depth: &mut u
     }
 }
 
+/// Matching runs of opening and closing brackets of mixed kinds, 100 .. 20 000 deep (depth thresholds: a nesting
+/// counter of 8 or 16 bits, a recursion limit).
+pub fn deep_nest(ch: &mut Chooser) -> (String, String) {
+    let d = [100usize, 254, 255, 256, 300, 1000, 20_000][ch.pick(7)];
+    let kinds = [('(', ')'), ('[', ']'), ('{', '}')];
+    let stride = 1 + ch.pick(3);
+    let mut open = String::with_capacity(d);
+    let mut close = String::with_capacity(d);
+    for i in 0..d {
+        open.push(kinds[(i / stride) % 3].0);
+    }
+    for i in (0..d).rev() {
+        close.push(kinds[(i / stride) % 3].1);
+    }
+    (open, close)
+}
+
 /// A well-formed attribute carrying the unique marker `§<id>§`. Returns (text, nesting depth).
 pub fn gen_attr(ch: &mut Chooser, id: usize) -> (String, usize) {
+    if ch.pick(96) == 95 {
+        // 1 attribute in 96 nests its brackets 100 .. 20 000 deep
+        let (open, close) = deep_nest(ch);
+        let d = open.len();
+        return (format!("#[a{open}{MARK}{id}{MARK}{close}]"), d + 1);
+    }
     let mut s = String::from("#[");
     let mut depth = 0;
     // "\"]\"" in the filler would unbalance the brackets as kiki counts them; it is only used inside nested brackets below
@@ -316,6 +339,25 @@ pub fn rebalance(s: &str) -> String {
 
 /// A malformed attribute (wrong closer, extra closer inside, missing closer before newline / EOF).
 pub fn gen_bad_attr(ch: &mut Chooser) -> String {
+    if ch.pick(24) == 23 {
+        // deeply nested and malformed: a wrong closer somewhere on the way out, a missing closer, one closer too many
+        let (open, mut close) = deep_nest(ch);
+        return match ch.pick(4) {
+            0 => {
+                let at = ch.pick(close.len());
+                let wrong = match close.as_bytes()[at] {
+                    b')' => "]",
+                    b']' => "}",
+                    _ => ")",
+                };
+                close.replace_range(at..at + 1, wrong);
+                format!("#[{open}x{close}]")
+            }
+            1 => format!("#[{open}x{}", &close[..close.len() - 1 - ch.pick(close.len() - 1)]),
+            2 => format!("#[{open}x{close})]"),
+            _ => format!("#[{open}"),
+        };
+    }
     let mut depth = 0;
     let mut body = String::new();
     attr_body(ch, 0, &mut body, &mut depth);
